@@ -19,7 +19,7 @@ OLD_RE = {r'(\:[_a-zA-Z]\w*)': 'colonIdent'}
 STAR_RE = {r'\*(\w*)$': 'starWordEnd'}
 ROUTE_RE = {r'(\{[_a-zA-Z][^{}]*(?:\{[^{}]*\}[^{}]*)*\})': 'braceOneLevel'}
 PH_DEFAULT = {'[^/]+': 'notSlashPlus'}
-REST_TPL = {'(?P<%s>.*?)': 'lazyDotStar'}
+REST_TPL = {'(?P<%s>(?s:.*?))': 'lazyAllStar'}      # the pre-fc43a19 '(?P<%s>.*?)' (no LF) is deliberately not listed
 ANCHOR = {'\\Z': 'endOfString', '$': 'dollar'}
 
 
